@@ -286,8 +286,25 @@ class FuncAnalysis:
         elif isinstance(target, ast.Starred):
             self.bind(target.value, st, env)
 
-    def sink(self, node, target, kind, env):
+    def _loop_alias(self, name):
+        """`for name in (a, b, ...)` over a display of names in this function -> [a, b, ...] (the objects `name` stands for)"""
+        loops = [n for n in own_nodes(self.func) if isinstance(n, ast.For) and isinstance(n.target, ast.Name) and n.target.id == name]
+        others = [n for n in own_nodes(self.func) if isinstance(n, (ast.Assign, ast.AugAssign, ast.AnnAssign))
+                  and any(isinstance(t, ast.Name) and t.id == name for t in (n.targets if isinstance(n, ast.Assign) else [n.target]))]
+        if len(loops) == 1 and not others and isinstance(loops[0].iter, (ast.Tuple, ast.List)) and loops[0].iter.elts \
+                and all(isinstance(e, ast.Name) for e in loops[0].iter.elts):
+            return [e.id for e in loops[0].iter.elts]
+        return None
+
+    def sink(self, node, target, kind, env, _expanded=False):
         b = base_name(target)
+        if b is not None and not _expanded:
+            alias = self._loop_alias(b)
+            if alias:
+                from .resolve import resolved as _rs
+                for real in alias:
+                    self.sink(node, _rs(target, {b: ast.Name(id=real, ctx=ast.Load())}), kind, env, _expanded=True)
+                return
         txt = norm(target)
         if b is None:
             st = self.status(target, env)
@@ -679,6 +696,24 @@ def rule_closure_state(rep: Report, repo: Repo):
                 rep.fail(R, f"{fa.mod}::{fa.q} writes captured state `{base}` ({kind}) not in the closure-state table",
                          "state shared between evaluations: results may depend on the request history or be left half-updated by an exception",
                          repo.loc(fa.mod, node))
+    # rebinding of an enclosing function's (or the module's) variable from inside a function: state that survives the call
+    n_scopes = 0
+    for mod, tree in repo.trees.items():
+        if mod in ("__init__", "algorithms"):
+            continue
+        for fn in [x for x in ast.walk(tree) if isinstance(x, ast.FunctionDef)]:
+            n_scopes += 1
+            for decl in [x for x in own_nodes(fn) if isinstance(x, (ast.Nonlocal, ast.Global))]:
+                for name in decl.names:
+                    writes = [x for x in own_nodes(fn) if (isinstance(x, ast.Assign) and any(isinstance(t, ast.Name) and t.id == name for t in x.targets))
+                              or (isinstance(x, (ast.AugAssign, ast.AnnAssign)) and isinstance(x.target, ast.Name) and x.target.id == name)
+                              or (isinstance(x, ast.NamedExpr) and x.target.id == name)]
+                    for w in writes:
+                        rep.fail(R, f"{mod}::{qualname(fn)} rebinds the {'enclosing' if isinstance(decl, ast.Nonlocal) else 'module'} variable `{name}` "
+                                    f"({'nonlocal' if isinstance(decl, ast.Nonlocal) else 'global'})",
+                                 "a decision or value kept from one call to the next: what a later call returns depends on which calls came before",
+                                 repo.loc(mod, w))
+    rep.count("E4.function_scopes_checked_for_nonlocal", n_scopes)
     # attributes added to BlockSeries instances outside __init__ (new per-series state)
     cls = repo.find("series::BlockSeries", R)
     init_attrs = set()
@@ -698,9 +733,18 @@ def rule_closure_state(rep: Report, repo: Repo):
     # module-level mutable state in the evaluation modules
     for mod in ("series", "algorithm_parsing", "block_diagonalization", "linalg", "kpm", "second_quantization"):
         for n in repo.trees[mod].body:
-            if isinstance(n, ast.Assign) and isinstance(n.value, (ast.Dict, ast.List, ast.Set)) and not (
-                    isinstance(n.targets[0], ast.Name) and n.targets[0].id == "__all__"):
-                rep.fail(R, f"{mod} module-level mutable container `{norm(n.targets[0])}`", "global state shared by all computations", repo.loc(mod, n))
+            if isinstance(n, (ast.Assign, ast.AnnAssign)) and isinstance(n.value, (ast.Dict, ast.List, ast.Set)) and not (
+                    isinstance(n, ast.Assign) and isinstance(n.targets[0], ast.Name) and n.targets[0].id == "__all__"):
+                tname = norm(n.targets[0] if isinstance(n, ast.Assign) else n.target)
+                writers = [(g_, st_) for g_ in ast.walk(repo.trees[mod]) if isinstance(g_, ast.FunctionDef) for st_ in own_nodes(g_)
+                           if (isinstance(st_, ast.Assign) and isinstance(st_.targets[0], ast.Subscript) and norm(st_.targets[0].value) == tname)
+                           or (isinstance(st_, ast.Call) and isinstance(st_.func, ast.Attribute) and norm(st_.func.value) == tname and st_.func.attr in MUTATORS)
+                           or (isinstance(st_, ast.Delete) and any(norm(getattr(t_, "value", t_)) == tname for t_ in st_.targets))]
+                if isinstance(n.value, ast.Dict) and not n.value.keys and writers and all(
+                        isinstance(st_, ast.Assign) and _is_memo_store(g_, tname, st_) for g_, st_ in writers):
+                    rep.ok(R, f"{mod} module-level memo table `{tname}`", "written once per key under a membership test: decided by E4.memo_key", repo.loc(mod, n))
+                    continue
+                rep.fail(R, f"{mod} module-level mutable container `{tname}`", "global state shared by all computations", repo.loc(mod, n))
     for key in CLOSURE_STATE:
         if key not in found:
             rep.note(f"closure-state table entry {key} no longer matches a write (stale entry)")
@@ -867,6 +911,13 @@ def memo_guards(func: ast.FunctionDef, table: str):
                 if isinstance(st, ast.Assign) and isinstance(st.targets[0], ast.Subscript) and norm(st.targets[0].value) == table \
                         and norm(st.targets[0].slice) == norm(x.test.left):
                     out.append((x, x.test.left, st))
+        # `if K in table: return table[K]` ... `table[K] = V` further down
+        if isinstance(x, ast.If) and isinstance(x.test, ast.Compare) and len(x.test.ops) == 1 and isinstance(x.test.ops[0], ast.In) \
+                and norm(x.test.comparators[0]) == table and any(isinstance(r, ast.Return) for r in x.body):
+            for st in own_nodes(func):
+                if isinstance(st, ast.Assign) and isinstance(st.targets[0], ast.Subscript) and norm(st.targets[0].value) == table \
+                        and norm(st.targets[0].slice) == norm(x.test.left) and st.lineno > x.lineno:
+                    out.append((x, x.test.left, st))
     return out
 
 
@@ -876,15 +927,19 @@ def _is_memo_store(func, table: str, node) -> bool:
     stores = [st for _g, _k, st in memo_guards(func, table)]
     if not any(st is node or any(x is node for x in ast.walk(st)) for st in stores):
         return False
+    def is_table_def(x):
+        tgt = x.targets[0] if isinstance(x, ast.Assign) else (x.target if isinstance(x, ast.AnnAssign) else None)
+        val = getattr(x, "value", None)
+        return isinstance(tgt, ast.Name) and tgt.id == table and val is not None and (
+            (isinstance(val, ast.Dict) and not val.keys) or (isinstance(val, ast.Call) and call_name(val) == "dict" and not val.args and not val.keywords))
     p = getattr(func, "_parent", None)
-    while p is not None and not isinstance(p, ast.FunctionDef):
+    while p is not None:
+        if isinstance(p, ast.FunctionDef) and any(is_table_def(x) for x in own_nodes(p)):
+            return True
+        if isinstance(p, ast.Module) and any(is_table_def(x) for x in p.body):
+            return True
         p = getattr(p, "_parent", None)
-    if p is None:
-        return False
-    return any(isinstance(x, ast.Assign) and isinstance(x.targets[0], ast.Name) and x.targets[0].id == table
-               and ((isinstance(x.value, ast.Dict) and not x.value.keys) or
-                    (isinstance(x.value, ast.Call) and call_name(x.value) == "dict" and not x.value.args and not x.value.keywords))
-               for x in own_nodes(p))
+    return False
 
 
 def _access_paths(e: ast.AST, root: str) -> set:
@@ -926,13 +981,23 @@ def _closure_memos(rep: Report, repo: Repo, R: str, modules=None) -> int:
     for mod, tree in repo.trees.items():
         if mod in ("__init__", "algorithms") or (modules is not None and mod not in modules):
             continue
+        def empty_dicts(stmts):
+            out = []
+            for x in stmts:
+                tgt = x.targets[0] if isinstance(x, ast.Assign) else (x.target if isinstance(x, ast.AnnAssign) else None)
+                val = getattr(x, "value", None)
+                if isinstance(tgt, ast.Name) and val is not None and ((isinstance(val, ast.Dict) and not val.keys) or
+                                                                      (isinstance(val, ast.Call) and call_name(val) == "dict" and not val.args and not val.keywords)):
+                    out.append(tgt.id)
+            return out
+        # module-level tables filled by module-level functions, and tables of a function filled by its closures
+        units = [(empty_dicts(tree.body), [x for x in tree.body if isinstance(x, ast.FunctionDef)])]
         for F in [x for x in ast.walk(tree) if isinstance(x, ast.FunctionDef)]:
-            tables = [x.targets[0].id for x in own_nodes(F) if isinstance(x, ast.Assign) and isinstance(x.targets[0], ast.Name)
-                      and ((isinstance(x.value, ast.Dict) and not x.value.keys) or
-                           (isinstance(x.value, ast.Call) and call_name(x.value) == "dict" and not x.value.args and not x.value.keywords))]
+            units.append((empty_dicts(list(own_nodes(F))), nested_defs(F)))
+        for tables, fillers in units:
             if not tables:
                 continue
-            for G in nested_defs(F):
+            for G in fillers:
                 params = [a.arg for a in [*G.args.posonlyargs, *G.args.args, *G.args.kwonlyargs]] + \
                          ([G.args.vararg.arg] if G.args.vararg else [])
                 for D in tables:
@@ -941,7 +1006,8 @@ def _closure_memos(rep: Report, repo: Repo, R: str, modules=None) -> int:
                         K = resolved(key, env_at(guard, G))
                         V = resolved(store.value, env_at(store, G))
                         inst = f"{mod}::{qualname(G)} memo table `{D}` keyed by `{norm(K)[:60]}`"
-                        missing, partial = [], []
+                        missing, partial, named = [], [], []
+                        NAMES = ("__name__", "__qualname__", "__module__")
                         for p_ in params:
                             reads = _access_paths(V, p_)
                             if not reads:
@@ -949,6 +1015,8 @@ def _closure_memos(rep: Report, repo: Repo, R: str, modules=None) -> int:
                             in_key = _access_paths(K, p_)
                             if not in_key:
                                 missing.append((p_, sorted(reads)))
+                            elif all(k_.split(".")[-1] in NAMES for k_ in in_key) and not all(r_.split(".")[-1] in NAMES for r_ in reads):
+                                named.append((p_, sorted(reads), sorted(in_key)))
                             elif not all(any(r_ == k_ or r_.startswith(k_ + "[") or r_.startswith(k_ + ".") for k_ in in_key) for r_ in reads):
                                 partial.append((p_, sorted(reads), sorted(in_key)))
                             else:
@@ -963,7 +1031,12 @@ def _closure_memos(rep: Report, repo: Repo, R: str, modules=None) -> int:
                                 t_.visit(K)
                                 if t_.bad:
                                     partial.append((p_, sorted(reads), ["(inside a comparison)"]))
-                        if missing:
+                        if named:
+                            rep.fail(R, f"{inst}: the cached value is computed from `{named[0][0]}` itself ({', '.join(named[0][1])[:50]}), the key holds only its name "
+                                        f"({', '.join(named[0][2])[:70]})",
+                                     "two different objects with the same module and (qualified) name share one entry: the second silently gets what was "
+                                     "computed from the first", repo.loc(mod, store))
+                        elif missing:
                             rep.fail(R, f"{inst}: the cached value reads parameter `{missing[0][0]}` ({', '.join(missing[0][1])[:60]}), which the key does not mention",
                                      "two calls that differ in that parameter share one entry: the second silently gets what was computed for the first",
                                      repo.loc(mod, store))
